@@ -22,7 +22,7 @@ ASSUMPTIONS = [
 ]
 MANIFEST = {'text': 'proof (all normal paths) of: per received message exactly one counter is incremented, a message is only dropped when counted as filtered, '
                     'otherwise sent unchanged and in order (no container, no write); disabled filters never enter a filter-kind container; Marker filters are never consulted.'
-                    ' Added: selection closures admit exactly the kinds of their collection; both matchers quantify with `any` only; `filters_active` covers every kind match_filters consults.'}
+                    ' Added: selection closures admit exactly the kinds of their collection; both matchers quantify with `any` only; `filters_active` covers every kind match_filters consults. Added: once `.enabled` of a supplied filter held, the push into the filter set follows on every path. Added: the index builder of filtered streams marks as processed exactly what it handed to the filters.'}
 
 FKC = 'adlt::filter::filter_impl::FilterKindContainer<'
 FILTER = 'adlt::filter::filter_impl::Filter'
@@ -122,7 +122,11 @@ def run(F, chk):
         else:
             Q4.ok(sample={'function': b.path, 'message_containers': 0})
         check_selection_closures(F, b, G6)
-    check_pushes(F, G3)
+    G14 = chk.rule('G15', 'once `.enabled` of a supplied filter held, nothing else decides whether it joins the filter set (the push follows on every path)')
+    check_pushes(F, G3, G14)
+    import c16
+    G8 = chk.rule('G8', 'index builder of filtered streams: the processed marker advances exactly to the end of what was handed to the filters (no message is marked processed without having been matched)')
+    c16.check_builder_progress(F, G8)
     check_marker(F, G4, sf)
     G9 = chk.rule('G9', 'both matchers quantify over a filter collection only with `any` (some positive / no negative / some event filter matches), never all/find/count')
     check_quantifiers(F, G9, sf)
@@ -259,7 +263,7 @@ def check_selection_closures(F, body, G6):
         G6.violation(('selection-kinds', body.path, ','.join('+'.join(k) for r, k in sorted(got))), 'the stream filter builds collections for kinds %s (expected exactly one Positive and one Negative)' % [k for r, k in sorted(got)], where=body.loc(None))
 
 
-def check_pushes(F, G3):
+def check_pushes(F, G3, G14=None):
     n = 0
     for body in F.order:
         sites = []
@@ -285,14 +289,44 @@ def check_pushes(F, G3):
             val = E.operand(t.args[-1])
             known = guards.known(cfg, E, blk.i)
             guarded = False
+            guard_block = None
             if isinstance(val, tuple) and val[0] == 'place':
                 want = val + ('.enabled',)
                 for (e, truth, D) in known:
                     if truth is True and e == want:
                         guarded = True
+                        guard_block = D
             literal = False
             if not guarded:
                 literal = built_from_literal_without_enabled(body, cfg, E, blk, val)
+            if guarded and G14 is not None and guard_block is not None:
+                # the converse: once `.enabled` held, nothing else may decide whether the filter joins the set - from the true edge
+                # of the test every path reaches the push before it reaches what follows the push (rest of the iteration, loop
+                # head, a normal return)
+                S = [tg for (Dd, tg, v, allv) in guards.dominating_edges(cfg, blk.i) if Dd == guard_block]
+                hd = None
+                for h, lb in sorted(cfg.loops().items(), key=lambda kv: len(kv[1])):
+                    if blk.i in lb:
+                        hd = h
+                        break
+                after = cfg.reachable_from(blk.i, avoid={hd} if hd is not None else set()) - {blk.i}
+                G14.sites += 1
+                G14.fn(body.path)
+                skip = None
+                if S:
+                    R = cfg.reachable_from(S[0], avoid={blk.i} | ({hd} if hd is not None else set()))
+                    for x in R:
+                        if x in after and not body.blocks[x].cleanup:
+                            skip = x
+                        if hd is not None and hd in cfg.succ[x] and x != blk.i:
+                            skip = x
+                        if x in cfg.exits:
+                            skip = x
+                if skip is None:
+                    G14.ok(sample={'function': body.path, 'push_at': body.loc(t.sp), 'always_pushed_once_enabled': True})
+                else:
+                    G14.violation(('enabled-filter-not-pushed', body.path), 'in %s an enabled filter can bypass the push at %s (a further condition decides between the `.enabled` test and the push): '
+                                  'the filter set used for matching is not the set of enabled filters that was supplied' % (body.path, body.loc(t.sp)), where=body.loc(body.blocks[skip].term.sp))
             if guarded:
                 G3.ok(sample={'function': body.path, 'push_at': body.loc(t.sp), 'guard': show(val) + '.enabled == true'})
             elif literal:
@@ -499,13 +533,41 @@ def check_active_shortcut(F, G10):
                     continue
                 if s.place.is_local and b.name_of(s.place.l) == 'filters_active':
                     stores.append((blk, s))
-        if not stores:
+        # `let filters_active = [kinds..].iter().any(|k| !filters[*k].is_empty())`: the flag is the result of a call
+        call_defs = [blk for blk in b.calls() if blk.term.dest.is_local and not blk.term.dest.p and b.name_of(blk.term.dest.l) == 'filters_active']
+        if not stores and not call_defs:
             continue
         cfg = CFG(b)
         E = ExprBuilder(cfg, fold_named=True)
         pr = Prov(cfg)
         idx = kinds_indexed(F, b, E)
+        for blk in call_defs:
+            n += 1
+            G10.sites += 1
+            G10.fn(b.path)
+            txt = ' '.join(show(E.operand(a)) for a in blk.term.args)
+            used = set(re.findall(r'FilterKind::(\w+)\{', txt))
+            for a in blk.term.args:
+                if (a.ty or '').startswith('{closure@'):
+                    import comparators
+                    cl = comparators.closure_path_of(F, b, a)
+                    if cl is not None:
+                        used |= set(kinds_indexed(F, cl, ExprBuilder(CFG(cl), fold_named=True)).keys())
+            missing = consulted - used
+            if not missing:
+                G10.ok(sample={'function': b.path, 'flag': 'filters_active', 'computed_from_kinds': sorted(used), 'match_filters_consults': sorted(consulted)})
+            else:
+                G10.violation(('active-flag-misses-kind', b.path, '+'.join(sorted(missing))),
+                              '%s computes `filters_active` at %s from the %s filters only, but match_filters also consults the %s filters: a stream whose filter set has only %s filters is treated as unfiltered' %
+                              (b.path, b.loc(blk.term.sp), '/'.join(sorted(used)) or 'no', '/'.join(sorted(missing)), '/'.join(sorted(missing))), where=b.loc(blk.term.sp))
         # kinds whose indexed collection flows into the stored flag
+        # `a || b || c` stores the flag once per arm: the kinds tested on the way to any store of the flag belong to its computation
+        cond_kinds = set()
+        if len(stores) > 1:
+            import guards as _g
+            for (blk, s) in stores:
+                for (c, truth, D) in _g.known(cfg, E, blk.i):
+                    cond_kinds |= set(k for k in idx if ('FilterKind::%s{' % k) in show(c))
         for (blk, s) in stores:
             if s.rv['k'] == 'use' and Operand(s.rv['o']).is_const:
                 continue
@@ -544,7 +606,7 @@ def check_active_shortcut(F, G10):
                             ctxt = ' '.join(show(E.operand(a)) for a in d.args)
                             ks |= set(k for k in idx if ('FilterKind::%s{' % k) in ctxt)
                 return ks
-            used = collect(s.rv, blk.i, 0, set())
+            used = collect(s.rv, blk.i, 0, set()) | cond_kinds
             missing = consulted - used
             if not missing:
                 G10.ok(sample={'function': b.path, 'flag': 'filters_active', 'computed_from_kinds': sorted(used), 'match_filters_consults': sorted(consulted)})
